@@ -72,5 +72,17 @@ if [ "$ID" = C20 ]; then
 fi
 build main "${VARGS[@]}"
 grep -q CONST-NOT-FOUND "$WORK/vinstr.main.log" && infra "constant override not applicable: $(grep CONST-NOT-FOUND $WORK/vinstr.main.log)"
-"$WORK/check.main" -id "$ID" -tier "$TIER" -root "$ROOT" -variant main "${REPLAY[@]}"
+# free-running complement: the real packages, real goroutines, Go's race detector (sampling; never the deciding step)
+RACE=()
+case $ID in C02|C03|C05|C06|C07|C08|C12|C14|C15)
+  if [ ${#REPLAY[@]} -eq 0 ]; then
+    mkdir -p "$WORK/race"
+    if go build "${MODFLAG[@]}" -race -o "$WORK/racepass" ./checks/racepass > "$WORK/build.race.log" 2>&1; then
+      SEC=3; [ "$TIER" = thorough ] && SEC=30
+      GORACE="log_path=$WORK/race/race exitcode=0 halt_on_error=0" timeout 120 "$WORK/racepass" -id "$ID" -seconds $SEC > "$WORK/race/result.json" 2> "$WORK/race/stderr.log" || rm -f "$WORK/race/result.json"
+      RACE=(-racepass "$WORK/race")
+    fi
+  fi ;;
+esac
+"$WORK/check.main" -id "$ID" -tier "$TIER" -root "$ROOT" -variant main "${RACE[@]}" "${REPLAY[@]}"
 exit $?
